@@ -171,6 +171,23 @@ def entry_points(ctx: Ctx, eff: Effects) -> list[tuple[str, list[FuncInfo], Func
     return out
 
 
+def _private(fq: str) -> bool:
+    last = fq.rsplit(".", 1)[-1]
+    return "<locals>" in fq or (last.startswith("_") and not (last.startswith("__") and last.endswith("__")))
+
+
+def _attributed(site_fq: str, chain_fq: list[str]) -> str | None:
+    """the function a violation is keyed under: the raising site's own function, or - when that is a private helper /
+    nested function - its nearest public caller on the reported chain (the failing input is the same whether the
+    statement stands in the public function or in a helper extracted from it)."""
+    if not _private(site_fq) or site_fq not in chain_fq:
+        return None
+    for fq in reversed(chain_fq[: chain_fq.index(site_fq)]):
+        if fq != "..." and not _private(fq):
+            return fq
+    return None
+
+
 def run(ctx: Ctx) -> None:
     repo = ctx.repo
     ctx.rule("R7.1", "no exception outside werkzeug's HTTPException family escapes an entry point: every raising site reachable from it is covered by a handler on the path, a dominating guard idiom, or a reviewed role whose premise is re-established on the current code")
@@ -273,12 +290,13 @@ def run(ctx: Ctx) -> None:
             ctx.ob("R7.1", f"{s.func.qualname}: `{s.text}` may raise {e}", ok, (f"reviewed role '{role}': " if ok else f"reviewed role '{role}': premise does not hold: ") + reason, s.func, s.node, f"{s.text} raises {e}")
             continue
         root = next((fs[0] for lab, fs, _, _ in entries if lab == labels[0]), None)
-        chain = " -> ".join(x.replace("werkzeug.", "") for x in (eff.chain(root, s, e) if root is not None else []))
+        chain_fq = eff.chain(root, s, e) if root is not None else []
+        chain = " -> ".join(x.replace("werkzeug.", "") for x in chain_fq)
         doc = MODEL_DOC.get(s.kind, "explicit raise")
         ctx.ob(
             "R7.1", f"{s.func.qualname}: `{s.text}` may raise {e}", False,
             f"{e} escapes {len(labels)} entry point(s) (e.g. {', '.join(sorted(set(labels))[:4])}) uncaught; chain: {chain}; model: {doc}",
-            s.func, s.node, f"{s.text} raises {e}",
+            s.func, s.node, f"{s.text} raises {e}", key_fn=_attributed(s.func.fq, chain_fq),
         )
     ctx.extra["c07"] = {
         "entry_points": len(entries), "functions_reachable": len(eff.reach),
